@@ -462,19 +462,25 @@ def _worker(path):
         out.flush()
 
 
-def run_children(jobs, tag, per_job_timeout=120):
-    """Run the jobs in NPROC child processes under `timeout`.  Returns {id: result}; a job without
-    a result hung or crashed its child (reported by the caller)."""
+def _weight(job):
+    return len(job["seqs"]) * (1 if job["kind"] == "match" else 3 if job["kind"] == "await" else 5) + 5
+
+
+def _round(jobs, tag, scale, solo=False):
+    """one round of child processes (each under `timeout`); returns {id: result} for the jobs that
+    were completed"""
     d = os.path.join(C.BUILD, "c07")
     os.makedirs(d, exist_ok=True)
     nproc = max(1, min(C.NPROC, len(jobs)))
-    # balance by number of runs
-    chunks = [[] for _ in range(nproc)]
-    loads = [0] * nproc
-    for job in sorted(jobs, key=lambda j: -len(j["seqs"])):
-        i = loads.index(min(loads))
-        chunks[i].append(job)
-        loads[i] += len(job["seqs"]) * (1 if job["kind"] == "match" else 3 if job["kind"] == "await" else 5) + 5
+    if solo:
+        chunks = [[j] for j in jobs]
+    else:
+        chunks = [[] for _ in range(nproc)]
+        loads = [0] * nproc
+        for job in sorted(jobs, key=lambda j: -_weight(j)):
+            i = loads.index(min(loads))
+            chunks[i].append(job)
+            loads[i] += _weight(job)
     env = C.impl_env()
     env["NEMO_GUARDRAILS_VERIF_MAX_STEPS"] = "20000"
     if "VERIF_REPO" in os.environ:
@@ -485,14 +491,15 @@ def run_children(jobs, tag, per_job_timeout=120):
             return ""
         p = os.path.join(d, f"{tag}_{i}.json")
         json.dump(chunks[i], open(p, "w"))
-        budget = 120 + int(loads[i] * 0.02) + per_job_timeout
+        # ~2 ms per weight unit on an idle core; 25x slack for a loaded machine, times `scale`
+        budget = int((90 + sum(_weight(j) for j in chunks[i]) * 0.05) * scale)
         rc, outp = C.sh(["timeout", str(budget), C.PY, "-m", "harness.c07", "--worker", p],
                         timeout=budget + 30, cwd=C.VERIF, env=env)
         return outp
 
     results = {}
     with ThreadPoolExecutor(max_workers=nproc) as ex:
-        for outp in ex.map(one, range(nproc)):
+        for outp in ex.map(one, range(len(chunks))):
             for line in outp.splitlines():
                 if line.startswith("{"):
                     try:
@@ -500,6 +507,22 @@ def run_children(jobs, tag, per_job_timeout=120):
                         results[r["id"]] = r
                     except Exception:
                         pass
+    return results
+
+
+def run_children(jobs, tag):
+    """Run the jobs in child processes under `timeout`.  A job whose child ran out of time is run
+    again with a larger budget, finally alone; only a job that does not return even alone is left
+    without a result (reported by the caller as a hang/crash of the interpreter)."""
+    results = {}
+    pending = list(jobs)
+    for rnd, scale in enumerate((1, 3)):
+        if not pending:
+            break
+        results.update(_round(pending, f"{tag}{rnd}", scale))
+        pending = [j for j in pending if j["id"] not in results]
+    if pending:
+        results.update(_round(pending[:16], f"{tag}solo", 2, solo=True))
     return results
 
 
@@ -733,16 +756,21 @@ def run(tier, seed, replay=None):
     n_nontrivial = 0
     origins = {}
     oracle_bad = 0
+    n_missing = 0
     for job in jobs:
         f = from_json(job["formula"])
         kind = job["kind"]
         r = results.get(job["id"])
         origins[job["origin"]] = origins.get(job["origin"], 0) + len(job["seqs"])
         if r is None:
-            # the child hung or died on this job: find the sequence in a child of its own
-            single = run_children([dict(job, seqs=[s], id=i) for i, s in enumerate(job["seqs"])], "hang", per_job_timeout=30) \
-                if len(job["seqs"]) > 1 else {}
-            bad = [job["seqs"][i] for i in range(len(job["seqs"])) if i not in single][:1] or job["seqs"][:1]
+            # no result even when run alone: pinpoint the event sequence, one child per sequence
+            n_missing += 1
+            if n_missing > 3:
+                out.add_broken("harness:C07-children-incomplete", f"no result for `{kind} {expr_text(f, kind)}`")
+                continue
+            singles = [dict(job, seqs=[s], id=i) for i, s in enumerate(job["seqs"][:64])]
+            single = _round(singles, "pin", 1)
+            bad = [job["seqs"][i] for i in range(len(singles)) if i not in single][:1] or job["seqs"][:1]
             out.findings.append(C.Finding(f"{kind}-group-hangs-or-crashes-interpreter",
                                           f"`{kind}` on {expr_text(f, kind)} did not return under the time limit",
                                           {"kind": "e2e", "stmt": kind, "formula": job["formula"], "events": bad[0]}))
